@@ -147,15 +147,27 @@ def env(flavour='plain', repo=None, extra=None):
 
 
 def ensure_numpy():
-    """Install numpy for /venv python into the cache (offline wheelhouse)."""
+    """Install numpy for /venv python into the cache (offline wheelhouse); atomic, safe under concurrent checks."""
     deps = os.path.join(CACHE, 'deps')
     if os.path.isdir(os.path.join(deps, 'numpy')):
         return deps
     os.makedirs(CACHE, exist_ok=True)
-    subprocess.check_call([PY, '-m', 'pip', 'install', '-q', '--no-index', '--find-links',
-                           '/opt/veriftools/wheels', '--target', deps, 'numpy'],
-                          stdout=subprocess.DEVNULL, stderr=subprocess.DEVNULL)
-    return deps
+    lock = open(os.path.join(CACHE, '.lock-deps'), 'w')
+    fcntl.flock(lock, fcntl.LOCK_EX)
+    try:
+        if os.path.isdir(os.path.join(deps, 'numpy')):
+            return deps
+        tmp = deps + '.tmp%d' % os.getpid()
+        shutil.rmtree(tmp, ignore_errors=True)
+        subprocess.check_call([PY, '-m', 'pip', 'install', '-q', '--no-index', '--find-links',
+                               '/opt/veriftools/wheels', '--target', tmp, 'numpy'],
+                              stdout=subprocess.DEVNULL, stderr=subprocess.DEVNULL)
+        shutil.rmtree(deps, ignore_errors=True)
+        os.rename(tmp, deps)
+        return deps
+    finally:
+        fcntl.flock(lock, fcntl.LOCK_UN)
+        lock.close()
 
 
 if __name__ == '__main__':
